@@ -642,7 +642,26 @@ func isChanType(t types.Type) bool {
 	return ok
 }
 
+// originNC: the storage location is declared never_closed
+func (ex *Exec) originNC(origin string) bool {
+	cs := ex.specs.Chans[origin]
+	return cs != nil && cs.Kind == "never_closed"
+}
+
+func (ex *Exec) originClosable(origin string) bool {
+	cs := ex.specs.Chans[origin]
+	return cs != nil && cs.Kind == "closable"
+}
+
 func (ex *Exec) chanClassLoad(st *State, origin string, t types.Type, term string) {
+	if isChanType(t) && !strings.HasPrefix(origin, "@") {
+		// never-closedness is a refinement of the location too (proved at every store and close)
+		if ex.originNC(origin) {
+			st.assume("(=> (distinct " + term + " 0) (ch_nc " + term + "))")
+		} else if ex.originClosable(origin) {
+			st.assume("(=> (distinct " + term + " 0) (not (ch_nc " + term + ")))")
+		}
+	}
 	if !isChanType(t) || len(ex.specs.ClassList) == 0 || strings.HasPrefix(origin, "@") {
 		return
 	}
@@ -650,6 +669,15 @@ func (ex *Exec) chanClassLoad(st *State, origin string, t types.Type, term strin
 }
 
 func (ex *Exec) chanClassStore(st *State, origin string, t types.Type, term string) {
+	if isChanType(t) && term != "0" {
+		// locations declared never_closed hold only never-closed channels, locations declared closable
+		// only channels that may be closed; undeclared locations hold either (and nothing is assumed)
+		if ex.originNC(origin) {
+			ex.oblige(st, "chan-nc", fmt.Sprintf("%s#neverclosed@%s", ex.curKey, smtSym(origin)), []string{"*"}, "(or (= "+term+" 0) (ch_nc "+term+"))", nil, "")
+		} else if ex.originClosable(origin) {
+			ex.oblige(st, "chan-nc", fmt.Sprintf("%s#closable@%s", ex.curKey, smtSym(origin)), []string{"*"}, "(or (= "+term+" 0) (not (ch_nc "+term+")))", nil, "")
+		}
+	}
 	if !isChanType(t) || len(ex.specs.ClassList) == 0 || term == "0" {
 		return
 	}
@@ -698,10 +726,13 @@ func (ex *Exec) notClosed(st *State, ch Val) string {
 		ex.use("chan-census:" + ch.Origin + " never_closed")
 		return "true"
 	}
-	return "(not " + st.read("closed", "Bool", ch.T) + ")"
+	// a never-closed channel (ghost attribute fixed when it is made; every close proves its operand is
+	// not one) is open
+	return "(or (= " + ch.T + " 0) (ch_nc " + ch.T + ") (not " + st.read("closed", "Bool", ch.T) + "))"
 }
 
 func (ex *Exec) doClose(st *State, fr *Frame, instr ssa.Instruction, ch Val) {
+	ex.oblige(st, "close-census", fmt.Sprintf("%s#close@neverclosed#%d", fr.key, ex.ordinalOf(fr, instr, "close")), []string{"*"}, "(not (ch_nc "+ch.T+"))", nil, ex.posOf(instr))
 	ex.safety(st, fr, instr, "close", "nil", "(distinct "+ch.T+" 0)")
 	ex.safety(st, fr, instr, "close", "closed", "(not "+st.read("closed", "Bool", ch.T)+")")
 	ex.closeCensus(st, fr, instr, ch)
@@ -809,6 +840,13 @@ func (ex *Exec) doSelect(st *State, fr *Frame, x *ssa.Select, k CallK) {
 			}
 		}
 		ex.ctxAware(st, fr, x, "select", has, ctxs...)
+		var rcs []string
+		for _, s := range x.States {
+			if s.Dir == types.RecvOnly {
+				rcs = append(rcs, ex.val(st, fr, s.Chan).T)
+			}
+		}
+		ex.escapes(st, fr, x, "select", rcs)
 	}
 	nStates := len(x.States)
 	total := nStates
